@@ -561,6 +561,7 @@ func checkMain(prop, tier string) int {
 				detChecked++
 				if p.Canon != o.Canon {
 					detDiverged++
+					fmt.Fprintf(os.Stderr, "DET-DIVERGENCE property=%s tier=%s seed=%d idx=%d canon %s vs %s\n", prop, tier, base, o.Idx, p.Canon, o.Canon)
 				}
 			}
 		}
@@ -847,7 +848,8 @@ func replayMain(path string) int {
 	}
 	b := build(false)
 	defer b.cleanup()
-	o, cs, st := runPlan(b, "replay", rf.Property, rf.Plan, rf.Sig, "", 0)
+	// VERIF_REPLAY_OUT: debugging aid, writes the re-executed run (plan, verdict, history) to that file
+	o, cs, st := runPlan(b, "replay", rf.Property, rf.Plan, rf.Sig, os.Getenv("VERIF_REPLAY_OUT"), 0)
 	if o != nil {
 		fmt.Printf("replay %s: canon=%s (recorded %s) violations=%d\n", path, o.Canon, rf.Canon, len(o.Verdict.Violations))
 		for _, v := range o.Verdict.Violations {
@@ -881,6 +883,10 @@ func main() {
 		os.Exit(replayMain(os.Args[2]))
 	case "selftest":
 		os.Exit(selftest())
+	case "detdiff":
+		// debugging aid: check detdiff <Cxx> <tier> <idx> [n]  — runs one index n times in fresh
+		// processes and reports the first history line on which two executions differ
+		os.Exit(detdiff(os.Args[2:]))
 	case "build":
 		// setup: warm the Go build cache (runner, instrumenter, engine and the three CLI test binaries)
 		b := build(true)
@@ -897,4 +903,70 @@ func main() {
 		}
 		os.Exit(checkMain(os.Args[1], tier))
 	}
+}
+
+func detdiff(args []string) int {
+	if len(args) < 3 {
+		die(2, "usage: check detdiff <Cxx> <tier> <idx> [n]")
+	}
+	prop, tier := args[0], args[1]
+	idx, _ := strconv.Atoi(args[2])
+	n := 20
+	if len(args) > 3 {
+		n, _ = strconv.Atoi(args[3])
+	}
+	base := uint64(20260921)
+	if v := os.Getenv("VERIF_SEED"); v != "" {
+		if x, err := strconv.ParseUint(v, 10, 64); err == nil {
+			base = x
+		}
+	}
+	c := world.Checks[prop]
+	if c == nil {
+		die(2, "unknown property %s", prop)
+	}
+	b := build(false)
+	defer b.cleanup()
+	plan := world.PlanFor(c, tier, base, idx)
+	if plan == nil {
+		die(2, "no plan for index %d", idx)
+	}
+	var first *world.ReplayFile
+	canons := map[string]int{}
+	for k := 0; k < n; k++ {
+		out := filepath.Join(b.scratch, fmt.Sprintf("dd-%d.json", k))
+		o, _, st := runPlan(b, "replay", prop, plan, "", out, 0)
+		if o == nil {
+			fmt.Println("run failed:", tail(st, 500))
+			continue
+		}
+		canons[o.Canon]++
+		rf := readReplay(out)
+		if rf == nil {
+			continue
+		}
+		if first == nil {
+			first = rf
+			continue
+		}
+		if rf.Canon != first.Canon {
+			for i := 0; i < len(rf.History) && i < len(first.History); i++ {
+				if rf.History[i] != first.History[i] {
+					lo := i - 12
+					if lo < 0 {
+						lo = 0
+					}
+					fmt.Printf("--- run %d differs from run 0 at history line %d\n", k, i)
+					for j := lo; j < i; j++ {
+						fmt.Println("   ", first.History[j])
+					}
+					fmt.Println("  A:", first.History[i])
+					fmt.Println("  B:", rf.History[i])
+					break
+				}
+			}
+		}
+	}
+	fmt.Println("canons:", canons)
+	return 0
 }
